@@ -6,6 +6,13 @@ use simple_sds::bit_vector::BitVector;
 use simple_sds::raw_vector::{RawVector, AccessRaw, PushRaw};
 use simple_sds::ops::{BitVec, Rank, Select, SelectZero, PredSucc};
 
+/// R4: selects the superblock regime of the SelectSupport structures built from now on, through the
+/// cfg(simple_sds_verif) hook (works under Kani and natively, so counterexamples replay).
+pub fn set_regime(long: bool) {
+    use simple_sds::bit_vector::select_support::{VERIF_FORCE_LONG, VERIF_FORCE_LONG_ON, VERIF_FORCE_LONG_OFF};
+    VERIF_FORCE_LONG.store(if long { VERIF_FORCE_LONG_ON } else { VERIF_FORCE_LONG_OFF }, std::sync::atomic::Ordering::Relaxed);
+}
+
 /// Arbitrary bit content of concrete length `l` (<= 64*OW) as RawVector + oracle.
 pub fn any_bits(l: usize) -> (RawVector, Bits) {
     let mut b = Bits { len: l, w: [0; OW] };
@@ -62,7 +69,8 @@ pub fn rank(l: usize) {
 }
 
 /// select with the real SelectSupport<Identity>.
-pub fn select(l: usize) {
+pub fn select(l: usize, long: bool) {
+    set_regime(long);
     let (raw, b) = any_bits(l);
     let mut bv = BitVector::from(raw);
     bv.enable_select();
@@ -76,7 +84,8 @@ pub fn select(l: usize) {
 }
 
 /// select_iter(r): first item is (r, select(r)); the following item has rank r+1.
-pub fn select_iter(l: usize) {
+pub fn select_iter(l: usize, long: bool) {
+    set_regime(long);
     let (raw, b) = any_bits(l);
     let mut bv = BitVector::from(raw);
     bv.enable_select();
@@ -96,7 +105,8 @@ pub fn select_iter(l: usize) {
     }
 }
 
-pub fn select_zero(l: usize) {
+pub fn select_zero(l: usize, long: bool) {
+    set_regime(long);
     let (raw, b) = any_bits(l);
     let mut bv = BitVector::from(raw);
     bv.enable_select_zero();
@@ -109,7 +119,8 @@ pub fn select_zero(l: usize) {
     }
 }
 
-pub fn select_zero_iter(l: usize) {
+pub fn select_zero_iter(l: usize, long: bool) {
+    set_regime(long);
     let (raw, b) = any_bits(l);
     let mut bv = BitVector::from(raw);
     bv.enable_select_zero();
@@ -132,7 +143,8 @@ pub fn select_zero_iter(l: usize) {
 /// predecessor / successor: nearest set bit at-or-before / at-or-after, with its rank.
 /// `v` ranges over the values for which the answer is defined by the documentation
 /// (any usize; v >= len behaves as documented — see C09 for the extreme values).
-pub fn pred_succ(l: usize) {
+pub fn pred_succ(l: usize, long: bool) {
+    set_regime(long);
     let (raw, b) = any_bits(l);
     let mut bv = BitVector::from(raw);
     bv.enable_pred_succ();
